@@ -188,6 +188,11 @@ func (e *Engine) checkProperty(prop, tier string, par int, writeLedger bool) int
 				}
 			}
 			rec["model"] = model
+			if o.Direct && o.Res.Solver == "bounded enumeration" && strings.Contains(o.Contract, "failures: [") && !strings.Contains(o.Contract, "did not run") {
+				// a bounded stand-in executed the real code: the failing inputs listed in the clause text are real
+				noInput = false
+				rec["failing_inputs_found_by"] = "bounded enumeration on the real code (generated in-package test injected with go test -overlay)"
+			}
 			if o.Res.Status == "sat" && !o.Direct {
 				rp := e.replay(o, prop)
 				rec["replay"] = rp
